@@ -50,6 +50,9 @@ void CommitHistory::Push(const Composition& composition, const string& input) {
     } else {
       // no translation for the segment
       Push({"raw", input.substr(seg.start, seg.end - seg.start)});
+      // the raw record ends the run of adjacent text; Push() may also have
+      // evicted the record `last` points to
+      last = NULL;
       end = seg.end;
     }
   }
